@@ -5,6 +5,7 @@ mod core_replay;
 mod edits;
 mod minted;
 mod parser_run;
+mod shapes;
 
 use api::*;
 use core_replay::*;
@@ -484,6 +485,42 @@ fn run_parser_cmd(args: &[String]) -> i32 {
     0
 }
 
+/// pv replay-shapes --shapes F --hex F --tier T --seed N --out summary.json
+fn replay_shapes_cmd(args: &[String]) -> i32 {
+    install_panic_hook();
+    let path = arg(args, "--shapes").expect("--shapes");
+    let hex_path = arg(args, "--hex").expect("--hex");
+    let tier = arg(args, "--tier").unwrap_or_else(|| "quick".into());
+    let seed: u64 = arg(args, "--seed").and_then(|s| s.parse().ok()).unwrap_or(1);
+    let out = arg(args, "--out").expect("--out");
+    let thorough = tier == "thorough";
+    let t0 = Instant::now();
+    let text = std::fs::read_to_string(&path).expect("shapes");
+    let sh: Vec<shapes::Shape> = text.lines().filter(|l| !l.trim().is_empty()).map(|l| serde_json::from_str(l).expect("shape")).collect();
+    let hex: Vec<shapes::HexCase> = serde_json::from_str(&std::fs::read_to_string(&hex_path).expect("hex")).expect("hex json");
+    let mut total = shapes::SOut::default();
+    std::thread::scope(|sc| {
+        let mut hs = vec![];
+        for t in 0..THREADS {
+            let sh = &sh;
+            hs.push(sc.spawn(move || shapes::run_shapes(sh, t, THREADS, seed, thorough)));
+        }
+        let fz = sc.spawn(move || shapes::run_fuzz(seed, thorough));
+        for h in hs {
+            total.merge(h.join().expect("thread"));
+        }
+        total.merge(fz.join().expect("fuzz"));
+    });
+    let hx = shapes::run_hex(&hex, seed);
+    let hex_n = hx.evaluations;
+    total.merge(hx);
+    let s = json!({"prop": "C09", "shapes": total.shapes, "evaluations": total.evaluations, "distinct": total.distinct,
+                   "hex_cases": hex_n, "nviol": total.nviol, "violations": total.violations, "samples": total.samples,
+                   "wall_s": t0.elapsed().as_secs_f64()});
+    std::fs::write(&out, serde_json::to_string_pretty(&s).unwrap()).expect("write");
+    if total.nviol > 0 { 1 } else { 0 }
+}
+
 fn main() {
     let args: Vec<String> = std::env::args().collect();
     let code = match args.get(1).map(|s| s.as_str()) {
@@ -492,6 +529,7 @@ fn main() {
         Some("minted-checks") => minted_checks(&args),
         Some("run-builder") => run_builder_cmd(&args),
         Some("run-parser") => run_parser_cmd(&args),
+        Some("replay-shapes") => replay_shapes_cmd(&args),
         _ => {
             eprintln!("usage: pv <smoke|replay-core> ...");
             2
